@@ -291,6 +291,7 @@ fn check_layout(t: &mut Tape, ctx: &Ctx) -> Outcome {
                     stmts.push(Stmt::Input { nocaps: false, prompt: Some("N".into()), targets: vec![Lval::Var(Name::new("A"))] });
                 }
                 1 if tron_inside => stmts.push(if t.chance(1, 2) { Stmt::Tron } else { Stmt::Troff }),
+                3 if t.chance(1, 3) => stmts.push(Stmt::Clear), // CLEAR has nothing to do with the cursor
                 2 if i + 1 < nlines && t.chance(1, 3) => {
                     // an error in the middle of a line: the message starts on a fresh line
                     stmts.push(Stmt::Let { lv: Lval::Var(Name::new("E%")), e: E::Bin(Bin::Add, Box::new(E::Lit("32767".into())), Box::new(E::Lit("1".into()))), kw: false });
@@ -318,6 +319,11 @@ fn check_layout(t: &mut Tape, ctx: &Ctx) -> Outcome {
     // the column is 0 again for the next run; a second run must look the same
     directs.push(vec![Stmt::Run(None)]);
     directs.push(vec![print_list(t)]);
+    if t.chance(1, 3) {
+        // a run started in mid-line: RUN clears variables, not the cursor column
+        directs.push(vec![print_list(t), Stmt::Run(None)]);
+        directs.push(vec![print_list(t), Stmt::Clear, print_list(t)]);
+    }
     let case = format!("{}\n{}", g.prog.text(), directs.iter().map(|d| format!("> {}", render_stmts(d))).collect::<Vec<_>>().join("\n"));
     crate::runner::note_case(&case);
     match compare(&g, &directs, 5000) {
@@ -380,7 +386,7 @@ pub fn property() -> Property {
         id: "C11",
         rule: "Cases: (integers) all 65536 Integers, exhaustive; (floats) proptest-generated Singles and Doubles: random bit patterns, neighbours of every power of ten, 7/9/15/17-digit decimals, subnormals, +-0, inf, NaN, n/8 and n/64 fractions, reciprocals — each stored in a typed variable and printed. \
 Number oracle: the text begins with a blank or a minus sign, ends with exactly one blank, the digits in between parse (correctly rounded, harness side) to the same bits of that type and have no more significant digits than the shortest round-trip representation; inf / NaN as in the manual; and (sign symmetry) x and -x print the same text behind the sign position. \
-(layout) proptest-generated programs of PRINT statements whose items are strings (ASCII, multi-byte, with an embedded line feed), numbers, TAB(n) for n in {0,1,5,13,14,15,20,28,40,255,-1,-5,-14}, SPC, POS(0), separated by ; , juxtaposition, doubled commas, with and without trailing separator, across statements and lines, with INPUT, TRON trace, an error in mid-line, two runs in a row and a direct PRINT. \
+(layout) proptest-generated programs of PRINT statements whose items are strings (ASCII, multi-byte, with an embedded line feed), numbers, TAB(n) for n in {0,1,5,13,14,15,20,28,40,255,-1,-5,-14}, SPC, POS(0), separated by ; , juxtaposition, doubled commas, with and without trailing separator, across statements and lines, with INPUT, TRON trace, an error in mid-line, two runs in a row, a direct PRINT, CLEAR between PRINT statements and a RUN started in mid-line (neither touches the cursor). \
 Layout oracle: the reference column model (characters since the last newline; `,` pads to the next multiple of 14 with at least one blank; TAB pads to the column if it is to the right, negative TAB to the next multiple; SPC n blanks; POS the column; trace text counts; INPUT and errors return to column 0); whole transcripts compared. The manual's own examples are checked literally. \
 Non-trivial: an Integer that needs a sign or > 4 digits / a float printed with a fraction or exponent / a layout case in which a trailing separator carried the column into the next statement. Distinct by value / program.",
         assumptions: vec![
